@@ -571,6 +571,36 @@ def _token_filter(chk, lf, lcfg, ret, tok_expr: ast.Name, seg_name: str, lex_cal
         if not _skips_only_through(lcfg, loop, st, meta_only):
             ok, why = False, f"a lexed token can be left out of the returned list without the test {var}.is_meta being true (only template-indent metas may be filtered)"
             break
+
+        # ... and, among the metas, only Indent/Dedent (indent_val != 0): a template placeholder is a
+        # zero-width meta too, but it is what covers the source characters of a template tag
+        def _is_var(x, at, var=var):
+            if isinstance(x, ast.Name) and x.id == var:
+                return True
+            if isinstance(x, ast.Call) and call_name(x).split(".")[-1] == "cast" and len(x.args) == 2:
+                return _is_var(x.args[1], at)
+            if isinstance(x, ast.Name):
+                os2 = origins(lcfg, x, at)
+                return bool(os2) and all(o.kind == "expr" and not o.path and _is_var(o.expr, o.stmt) for o in os2)
+            return False
+
+        def indent_only(br):
+            if not isinstance(br.stmt, (ast.If, ast.While)):
+                return False
+            for e, pol in atoms(br.stmt.test, br.polarity):
+                if isinstance(e, ast.Attribute) and e.attr == "indent_val" and pol and _is_var(e.value, br.stmt):
+                    return True
+                if isinstance(e, ast.Compare) and len(e.ops) == 1 and isinstance(e.left, ast.Attribute) and e.left.attr == "indent_val" and const(e.comparators[0]) == 0 and _is_var(e.left.value, br.stmt):
+                    if (isinstance(e.ops[0], ast.NotEq) and pol) or (isinstance(e.ops[0], ast.Eq) and not pol):
+                        return True
+            return False
+
+        if not _skips_only_through(lcfg, loop, st, indent_only):
+            ok, why = False, (
+                f"a meta segment can be left out of the returned list without the test <{var}>.indent_val != 0 being true: only Indent/Dedent may be "
+                "filtered; a template placeholder dropped here leaves the source characters of its tag covered by no token and no placeholder"
+            )
+            break
         for n in walk_local(loop):
             if isinstance(n, (ast.Break, ast.Return, ast.Raise)):
                 if not any(meta_only(gd) for gd in lcfg.guards(n)):
@@ -611,6 +641,18 @@ TSQL = "src/sqlfluff/dialects/dialect_tsql.py"
 PG = "src/sqlfluff/dialects/dialect_postgres.py"
 
 VARIANTS = [
+    Variant(
+        "indent-filter-also-drops-block-placeholders", LINTER,
+        "                if meta_segment.indent_val != 0:\n",
+        "                if meta_segment.indent_val != 0 or meta_segment.block_uuid:\n",
+        "R01b", "_lex_templated_file", "seeded C01-2: placeholders of {% %} tags vanish when the template indents do not balance",
+    ),
+    Variant(
+        "quiet-indent-filter-single-condition", LINTER,
+        "            if segment.is_meta:\n                meta_segment = cast(\"MetaSegment\", segment)\n                if meta_segment.indent_val != 0:\n                    # Don't allow it if we're not linting templating block indents.\n                    if not templating_blocks_indent:\n                        continue  # pragma: no cover\n",
+        "            if segment.is_meta and cast(\"MetaSegment\", segment).indent_val != 0 and not templating_blocks_indent:\n                continue\n",
+        "QUIET", None, "the three nested tests spelled as one conjunction",
+    ),
     Variant(
         "tsql-whitespace-excludes-tab", TSQL,
         "tsql_dialect.patch_lexer_matchers(\n    [\n",
